@@ -978,14 +978,60 @@ COMP = Compress()
 def reset_compress():
     global COMP
     COMP = Compress()
+    _FLAT.clear()
     return COMP
 
 
+_FLAT = {}     # (id(mask1), id(mask2)) -> (mask1, mask2, combined mask over the base positions)
+
+
 def compress(base, mask):
+    """base[mask].  A selection from an already selected array by a mask that is itself defined on the selected
+    positions (filter of a filter) is flattened to one selection from the original array by the conjunction
+    of the two masks (A2: boolean-mask indexing preserves order, so the two are the same array)."""
+    if isinstance(base, Arr) and base.comp is not None and mask.comp is not None and mask.comp[1] is base.comp[1]:
+        base0, mask1 = base.comp
+        G = mask.comp[0]
+        key = (id(mask1), id(mask))
+        ent = _FLAT.get(key)
+        if ent is None:
+            m1f, gf = mask1.f, G.f
+            m12 = Arr(mask1.n, lambda p: z3.And(to_bool(m1f(p)), to_bool(gf(p))))
+            _FLAT[key] = (mask1, mask, m12)
+        else:
+            m12 = ent[2]
+        return compress(base0, m12)
     cnt, sel, rank = COMP.get(mask)
     if isinstance(base, Arr):
         return Arr(cnt, lambda p, _f_base=base.f: _f_base(sel(lift(p))), comp=(base, mask))
     raise Unsupported('compress of non-array')
+
+
+def duplicated_first(idx, keep='first'):
+    """pandas Index.duplicated(keep='first'|'last'): element q is True iff an earlier (later) element equals it.
+    For an index that is a selection base[mask] the statement is made over the base positions (order
+    isomorphism)."""
+    first = (keep == 'first')
+    if idx.comp is not None:
+        base, mask = idx.comp
+        bf, mf = base.f, mask.f
+        nb = base.n
+
+        def D(p):
+            q = z3.Int(fresh_name('dup'))
+            rng = z3.And(q >= 0, q < lift(p)) if first else z3.And(q > lift(p), q < lift(nb))
+            return z3.Exists([q], z3.And(rng, to_bool(mf(q)), to_bool(cmpop('Eq', bf(q), bf(p)))))
+        Darr = Arr(base.n, D)
+        cnt, sel, rank = COMP.get(mask)
+        return Arr(idx.n, lambda qq: D(sel(lift(qq))), comp=(Darr, mask))
+    f = idx.f
+    n0 = idx.n
+
+    def D0(p):
+        q = z3.Int(fresh_name('dup'))
+        rng = z3.And(q >= 0, q < lift(p)) if first else z3.And(q > lift(p), q < lift(n0))
+        return z3.Exists([q], z3.And(rng, to_bool(cmpop('Eq', f(q), f(p)))))
+    return Arr(idx.n, D0)
 
 
 # ---------------------------------------------------------------- sums over arrays
